@@ -1263,8 +1263,31 @@ theorem qos2_exchange (c : C) (hc : c.connected = true) (he : c.pub2in = []) (p 
 
 /-! ### packet identifiers -/
 
-/-- the identifier `Encode` puts into a request: the caller's, or the next value of the counter -/
-def assigned (c : C) (id : Nat) : Nat := if id = 0 then (c.ctr + 1) % 65536 else id
+/-- the identifier `Encode` puts into a request: the caller's, or the next identifier of the
+process-wide counter (`nextPacketID`: 0 is skipped) -/
+def assigned (c : C) (id : Nat) : Nat := if id = 0 then (Mqtt.Model.Broker.nextPacketID c.ctr).1 else id
+
+/-- `nextPacketID` in closed form: the identifier is the new counter value modulo 2^16, never 0,
+and the counter advances by 1, or by 2 when its low 16 bits pass 0 -/
+theorem nextPacketID_spec (ctr : Nat) :
+    (Mqtt.Model.Broker.nextPacketID ctr).1 = (Mqtt.Model.Broker.nextPacketID ctr).2 % 65536 ∧
+    (Mqtt.Model.Broker.nextPacketID ctr).1 ≠ 0 ∧ (Mqtt.Model.Broker.nextPacketID ctr).1 < 65536 ∧
+    ((Mqtt.Model.Broker.nextPacketID ctr).2 = ctr + 1 ∨
+      ((ctr + 1) % 65536 = 0 ∧ (Mqtt.Model.Broker.nextPacketID ctr).2 = ctr + 2)) := by
+  unfold Mqtt.Model.Broker.nextPacketID
+  by_cases h : (ctr + 1) % 65536 = 0
+  · rw [if_neg (by simpa using h)]
+    refine ⟨rfl, ?_, ?_, Or.inr ⟨h, rfl⟩⟩ <;> dsimp only <;> omega
+  · rw [if_pos h]
+    refine ⟨rfl, ?_, ?_, Or.inl rfl⟩ <;> dsimp only <;> omega
+
+/-- the identifier a request is written with is never 0: a caller-supplied identifier is
+non-zero by definition (0 = none supplied), an assigned one by `nextPacketID` -/
+theorem assigned_ne_zero (c : C) (id : Nat) : assigned c id ≠ 0 := by
+  unfold assigned
+  by_cases h : id = 0
+  · simp only [h, ↓reduceIte]; exact (nextPacketID_spec c.ctr).2.1
+  · simp only [h, ↓reduceIte]; exact h
 
 /-- identifier of a written PUBLISH (QoS > 0), SUBSCRIBE or UNSUBSCRIBE -/
 def writtenId : Out → Option Nat
@@ -1409,18 +1432,6 @@ theorem idsNodup_run (c : C) (evs : List Ev) (h : IdsNodup c) : IdsNodup (runSta
   | nil => exact h
   | cons ev evs ih => exact ih _ (idsNodup_step c ev h)
 
-/-- the call's identifier is supplied and non-zero, or the counter is not about to wrap to 0 -/
-def idOkStep (c : C) : Ev → Bool
-  | .api call | .apiEarlyAck call _ =>
-    match callReq call with
-    | some (_, id, _) => assigned c id != 0
-    | none => true
-  | _ => true
-
-def IdOk (c : C) : List Ev → Bool
-  | [] => true
-  | ev :: evs => idOkStep c ev && IdOk (step c ev).1 evs
-
 theorem idsNonzero_peer (c : C) (p : Packet) (h : IdsNonzero c) : IdsNonzero (peer c p).1 := by
   intro k e he
   have hm : e.id ∈ (queue k (peer c p).1).map (·.id) := List.mem_map.mpr ⟨e, he, rfl⟩
@@ -1462,8 +1473,7 @@ theorem idsNonzero_api (c : C) (call : Api) (h : IdsNonzero c)
 theorem idsNonzero_init : IdsNonzero init := by
   intro k e he; cases k <;> simp [init, queue] at he
 
-theorem idsNonzero_step (c : C) (ev : Ev) (h : IdsNonzero c) (hok : idOkStep c ev = true) :
-    IdsNonzero (step c ev).1 := by
+theorem idsNonzero_step (c : C) (ev : Ev) (h : IdsNonzero c) : IdsNonzero (step c ev).1 := by
   by_cases hc : c.connected = true
   · cases ev with
     | connect a =>
@@ -1477,8 +1487,8 @@ theorem idsNonzero_step (c : C) (ev : Ev) (h : IdsNonzero c) (hok : idOkStep c e
     | api call =>
       rw [step_api c hc]
       refine idsNonzero_api c call h ?_ _ (fun k => apiWrite_queue k c call)
-      intro k id tag hreq
-      simpa [idOkStep, hreq] using hok
+      intro k id tag _
+      exact assigned_ne_zero c id
     | peer p => rw [step_peer c hc]; exact idsNonzero_peer _ _ h
     | apiEarlyAck call ack =>
       simp only [step, hc, Bool.not_true, Bool.false_eq_true, ↓reduceIte]
@@ -1512,7 +1522,7 @@ theorem idsNonzero_step (c : C) (ev : Ev) (h : IdsNonzero c) (hok : idOkStep c e
           rw [this] at hreq
           simp only [Option.some.injEq, Prod.mk.injEq] at hreq
           rw [← hreq.2.1]
-          simpa [idOkStep, hcr] using hok
+          exact assigned_ne_zero c id
   · have hc' : c.connected = false := by simpa using hc
     cases ev with
     | connect a =>
@@ -1525,13 +1535,10 @@ theorem idsNonzero_step (c : C) (ev : Ev) (h : IdsNonzero c) (hok : idOkStep c e
       | _ => exact h
     | _ => simp only [step, hc', Bool.not_false, ↓reduceIte]; exact h
 
-theorem idsNonzero_run (c : C) (evs : List Ev) (h : IdsNonzero c) (hok : IdOk c evs = true) :
-    IdsNonzero (runState c evs) := by
+theorem idsNonzero_run (c : C) (evs : List Ev) (h : IdsNonzero c) : IdsNonzero (runState c evs) := by
   induction evs generalizing c with
   | nil => exact h
-  | cons ev evs ih =>
-    simp only [IdOk, Bool.and_eq_true] at hok
-    exact ih _ (idsNonzero_step c ev h hok.1) hok.2
+  | cons ev evs ih => exact ih _ (idsNonzero_step c ev h)
 
 theorem apiRegister_out_nil (c : C) (call : Api) (k : Kind) (id tag : Nat) (h : callReq call = some (k, id, tag)) :
     (apiRegister c call).2 = [] := by
@@ -1561,12 +1568,5 @@ theorem step_api_written (c : C) (hc : c.connected = true) (call : Api) (k : Kin
     rw [h2] at hreq
     simp only [Option.some.injEq, Prod.mk.injEq] at hreq
     exact hreq.2.1.symm
-
-theorem assigned_ne_zero_iff (c : C) (id : Nat) : assigned c id ≠ 0 ↔ id ≠ 0 ∨ c.ctr % 65536 ≠ 65535 := by
-  unfold assigned
-  by_cases h : id = 0
-  · simp only [h, ↓reduceIte, ne_eq, not_true_eq_false, false_or]
-    omega
-  · simp [h]
 
 end Mqtt.Proofs.Client
